@@ -19,14 +19,14 @@ SERVE_ASSUME = [
 ]
 
 def serve_prop(fields, trivial, rule, extra_tb=None, extra_assume=None):
-    return dict(engine='serve', fields=fields + ['shape', 'polls'], trivial_tags=trivial, rule=rule,
+    return dict(engine='serve', fields=fields + ['shape'], trivial_tags=trivial, rule=rule,
                 trusted_base=SERVE_TB + (extra_tb or []), assumptions=SERVE_ASSUME + (extra_assume or []))
 
 GEN_NOTE = ' Every case is executed on the real crate and re-evaluated by the extracted Coq model; distinct = distinct case inputs (sha1).'
 PROPS = {
-    'C01': serve_prop(['hdr:content-length', 'hint0', 'poll.res', 'poll.hint'], ['405:text'],
+    'C01': serve_prop(['hdr:content-length', 'hint0', 'body.len', 'body.end'], ['405:text'],
         'mixed requests (methods x Range / If-Range / conditional headers) x entity lengths {0,1,2,79..81,239..241,4095..4097,65535..65537,2^32,2^63,2^64-1} x chunkings (single chunk, random splits with empty chunks and Pendings), all splits of ranges <= 5 (quick) / 6 (thorough) bytes exhaustively, multipart sets. Non-trivial = not the 405 branch.' + GEN_NOTE),
-    'C02': serve_prop(['status', 'hdr:content-range', 'calls', 'poll.res'], ['405:text', '304:empty', '412:text', '400:text'],
+    'C02': serve_prop(['status', 'hdr:content-range', 'calls', 'body.bytes', 'body.end'], ['405:text', '304:empty', '412:text', '400:text'],
         'satisfiable and boundary range requests x entity lengths up to 2^64-1 with position-dependent content x all splits of small ranges (exhaustive) and random chunkings. Non-trivial = a response that reads entity bytes or names a range.' + GEN_NOTE),
     'C03': serve_prop(['status', 'hdr:content-range', 'hdr:content-type', 'calls'], ['200:full'],
         'structured generation from RFC 7233 ASTs: exhaustive small scope (all 1- and 2-spec sets over positions 0..L+2, L<=3 quick / <=6 thorough), boundary product over {0,1,L-1,L,L+1,2^32,2^63,2^64-2,2^64-1,2^64}, sets around the 80-byte estimate, near-miss mutations, arbitrary bytes. Non-trivial = the model does not take the plain "no usable Range -> 200 full" branch.' + GEN_NOTE),
@@ -34,19 +34,19 @@ PROPS = {
         'categorical product: ETag {absent, strong, weak, strong containing ", "} x mtime {absent, whole second, +500 ms} x If-Match, If-None-Match {absent, *, sampled lists of 1..4 tags mixing equal/different, strong/weak, tags with commas and spaces} x If-Modified-Since, If-Unmodified-Since {absent, -1 day, -1 s, equal, +1 s} x GET/HEAD; plus malformed lists and dates. Every case counts as non-trivial (each is a distinct point of the product).' + GEN_NOTE),
     'C05': serve_prop(['status', 'hdr:content-range', 'calls'], [],
         'ETag {absent, strong, weak, strong with comma} x mtime x If-Range {same, other strength, prefix, suffix, case variants, trailing space, list, different, dates before/equal/after, garbage, *, empty, non-ASCII, arbitrary bytes} x Range {single, multiple, open, malformed, suffix} x GET/HEAD (exhaustive product), some with further conditional headers.' + GEN_NOTE),
-    'C06': serve_prop(['status', 'hdr:content-type', 'hdr:content-length', 'hdr:content-range', 'poll.res', 'calls'], ['200:full', '200:full:fallback'],
+    'C06': serve_prop(['status', 'hdr:content-type', 'hdr:content-length', 'hdr:content-range', 'body.bytes', 'body.end', 'calls'], ['200:full', '200:full:fallback'],
         '2..8 satisfiable ranges (overlapping, adjacent, duplicate, at both ends, open and suffix forms) x entity lengths {300, 1000, 1e5, 2^32+7, 2^63, 2^64-1} x 4 entity header sets (0..3 headers, up to 200-byte values) x with/without matching If-Range x honest chunkings. Non-trivial = a multipart response.' + GEN_NOTE),
-    'C07': serve_prop(['poll.res'], [],
+    'C07': serve_prop(['body.end', 'body.len'], [],
         'fault enumeration, exhaustive for streams of <= 3 (quick) / 4 (thorough) chunks: every chunk index x {early end, error, Pending then error, Pending then early end, one byte short, one extra byte, empty chunk, Pending, one extra chunk, error after completion} x shapes {200, single 206, multipart part j of n, n <= 3}; plus random faulty streams in mixed requests.' + GEN_NOTE),
-    'C12': serve_prop(['hint0', 'eos0', 'poll.hint', 'poll.eos', 'op.hint', 'op.eos'], [],
+    'C12': serve_prop(['hint0', 'eos0', 'poll.hint', 'poll.eos', 'op.hint', 'op.eos', 'polls'], [],
         'size_hint() and is_end_stream() sampled before the first and after every poll of every body of a mixed request stream, multipart sets, fault scripts and exhaustive small chunkings; and, for streaming_body bodies, after every operation of random write/flush/poll histories with and without abort / body drop, raw and gzip.' + GEN_NOTE),
-    'C13': serve_prop(['status', 'hdr:allow', 'calls', 'poll.res'], [],
+    'C13': serve_prop(['status.class', 'allow', 'calls.405', 'body.panic'], [],
         'methods (standard and extension tokens) x header values from three streams (grammar-derived, near-miss, arbitrary bytes incl. >= 0x80) x repeated header lines x entity lengths {0,1,...,2^32,2^63,2^64-1} x ETag/mtime presence; panics are caught around serve() and around every poll.' + GEN_NOTE),
     'C14': serve_prop(['status', 'hdr:accept-ranges', 'hdr:etag', 'hdr:date', 'hdr:last-modified', 'hdr:content-type', 'hdr:x-*', 'hdr:content-language'], [],
         'two-request histories: GET (plain / single range / several ranges), then one request per non-empty subset of the validators the first response actually served (If-None-Match, If-Match, If-Range + Range, If-Modified-Since, If-Unmodified-Since) x ETag {absent, strong, weak, with comma} x mtime {absent, epoch, whole second, +1 ms, +1 ns, 1 ns before the next second, 3 s ago, one day ahead} x 4 entity header sets.' + GEN_NOTE),
-    'C15': serve_prop(['status', 'hdr:*', 'calls', 'hint0', 'poll.res'], [],
+    'C15': serve_prop(['status', 'hdr:*', 'calls', 'hint0', 'body.len', 'body.end'], [],
         'every GET/HEAD request of a broad mix (mixed requests, multipart sets, If-Range product, conditional product) executed with GET and with HEAD; the twins are diffed by the harness (status, headers apart from Date, entity reads, body bytes) and each is compared with the model.' + GEN_NOTE),
-    'C20': serve_prop(['poll.res'], [],
+    'C20': serve_prop(['body.after', 'body.panic'], [],
         'every body polled 1..4 more times after each kind of terminal event (clean end, entity error, too short, too long) at every fault position of the C07 enumeration, plus mixed requests with faulty fused streams and multipart sets.' + GEN_NOTE),
 }
 
